@@ -24,7 +24,7 @@ RULE = ("plan = object (DataFrame with 1..6 rows (1..15 thorough) x 1..4 columns
         "same dtypes for the binary formats; compressed suffixes start with the format's magic bytes and decompress (stdlib) to "
         "the bytes of an uncompressed write with the same options. Non-trivial: a compressed suffix or a non-default option, "
         "together with a string cell containing a special character or a leading missing value. Distinct = plan hash.")
-CASES = {"quick": 1500, "thorough": 3000}
+CASES = {"quick": 1500, "thorough": 6000}
 
 MAGIC = {".gz": b"\x1f\x8b", ".bz2": b"BZh", ".xz": b"\xfd7zXZ\x00"}
 OPENERS = {".gz": gzip.open, ".bz2": bz2.open, ".xz": lzma.open}
